@@ -32,7 +32,6 @@ from pyttb.pyttb_utils import (
     OneDArray,
     Shape,
     get_mttkrp_factors,
-    isrow,
     isvector,
     np_to_python,
     parse_one_d,
@@ -393,8 +392,8 @@ class ktensor:
             contains_weights, bool
         ), "Input parameter 'contains_weights' must be a bool."
 
-        if isrow(data):
-            data = data.T
+        # row and column vectors (2-D) are accepted: work on the flat vector
+        data = data.reshape(-1)
 
         # compute the number of components from inputs
         if contains_weights:
